@@ -10,8 +10,9 @@
    reads the other way round); the package scope lookup stops at a directory
    named node_modules.
    A resolved URL containing a percent sign is outside the modelled fragment
-   (NOut).  The ES-module entry (ESM_RESOLVE, legacy main lookup) and symlinks
-   are not modelled here: oracle only.  Executable definitions only. *)
+   (NOut).  The ES-module entry (ESM_RESOLVE, PACKAGE_RESOLVE with the legacy
+   main lookup) is at the end of the file.  Symlinks are not modelled: oracle
+   only.  Executable definitions only. *)
 From V Require Import Common.Base C11.Str C11.EsbuildResolve C11.NodeSpec C11.Walk.
 Local Open Scope string_scope.
 Local Open Scope Z_scope.
@@ -65,7 +66,9 @@ Section Spec.
   Definition RESOLVE_ESM_MATCH (pkgdir : path) (o : outcome) (pkg_resolve : str -> nres) : nres :=
     match o with
     | OResolved u =>
-        if has_byte ch_pct u then NOut
+        (* percent escapes and backslashes are outside the modelled URL fragment *)
+        if has_byte ch_pct u || has_byte ch_bslash u || negb (prefixb [ch_slash] u) then NOut
+        else if suffixb [ch_slash] u then NNotFound     (* a path with a trailing "/" is not a file *)
         else if isfile fs (join_rel pkgdir u) then NFile (join_rel pkgdir u) else NNotFound
     | OPackageResolve s => pkg_resolve s
     | ORefused e => NRejected e
@@ -181,4 +184,102 @@ Section Spec.
       | Some r => r
       | None => cjs_package conds x dir
       end.
+
+  (* ================= ES modules: doc/api/esm.md =================
+     ESM_RESOLVE, PACKAGE_RESOLVE, PACKAGE_SELF_RESOLVE, LOOKUP_PACKAGE_SCOPE,
+     PACKAGE_IMPORTS_RESOLVE (entry), with the checks of the "resolved" URL
+     (directory -> Unsupported Directory Import, missing -> Module Not Found).
+     Differences from require: no extension search, no directory index for a
+     path; only a package's main entry gets the legacy lookup.
+     DOC-DEVIATION (Node 20 followed, validated): for a package without
+     "exports" and subpath "." Node runs legacyMainResolve (main, main.js,
+     main.json, main.node, main/index.js|json|node, index.js|json|node), the
+     documentation only says "URL resolution of main". *)
+  Definition esm_file_check (p : path) : nres := if isfile fs p then NFile p else NNotFound.
+
+  Definition legacy_main (pkgdir : path) (pk : option pkginfo) : nres :=
+    let idx := LOAD_INDEX pkgdir in
+    match match pk with Some k => pk_main k | None => None end with
+    | Some m =>
+        let M := join_rel pkgdir m in
+        match LOAD_AS_FILE M with
+        | Some f => NFile f
+        | None => match LOAD_INDEX M with
+                  | Some f => NFile f
+                  | None => match idx with Some f => NFile f | None => NNotFound end
+                  end
+        end
+    | None => match idx with Some f => NFile f | None => NNotFound end
+    end.
+
+  (* the loop of PACKAGE_RESOLVE over the parent directories *)
+  Fixpoint esm_walk (conds : list str) (fuel : nat) (name subpath : str) (dir : path) : nres :=
+    let pkgdir := join_rel (dir ++ [node_modules_s]) name in
+    let here : option nres :=
+      if isdir fs pkgdir then
+        match pkg_of fs pkgdir with
+        | Some pk =>
+            match pk_exports pk with
+            | Some ex => Some (RESOLVE_ESM_MATCH pkgdir (node_exports_resolve ex subpath conds) (fun _ => NOut))
+            | None => None
+            end
+        | None => None
+        end
+      else None in
+    match here with
+    | Some r => r
+    | None =>
+        if isdir fs pkgdir then
+          if str_eqb subpath (s_ ".") then legacy_main pkgdir (pkg_of fs pkgdir)
+          else esm_file_check (join_rel pkgdir subpath)
+        else match fuel, dir with
+             | S f, _ :: _ => esm_walk conds f name subpath (parent dir)
+             | _, _ => NNotFound
+             end
+    end.
+
+  (* PACKAGE_RESOLVE(packageSpecifier, parentURL) *)
+  Definition PACKAGE_RESOLVE (conds : list str) (x : str) (dir : path) : nres :=
+    if builtin x then NBuiltin x
+    else match package_name_spec x with
+         | None => NRejected EInvalidSpecifier
+         | Some (name, subpath) =>
+             let self :=
+               match package_scope (length dir) dir with
+               | Some (scope, pk) =>
+                   match pk_exports pk, pk_name pk with
+                   | Some ex, Some n =>
+                       if str_eqb n name
+                       then Some (RESOLVE_ESM_MATCH scope (node_exports_resolve ex subpath conds) (fun _ => NOut))
+                       else None
+                   | _, _ => None
+                   end
+               | None => None
+               end in
+             match self with
+             | Some r => r
+             | None => esm_walk conds (length dir) name subpath dir
+             end
+         end.
+
+  (* ESM_RESOLVE(specifier, parentURL); dir = directory of the importing module *)
+  Definition import_resolve (user : list str) (dir : path) (x : str) : nres :=
+    let conds := esm_conds user in
+    if prefixb (s_ "/") x then esm_file_check (abs_path x)
+    else if prefixb (s_ "./") x || prefixb (s_ "../") x then
+      if suffixb (s_ "/") x then NNotFound else esm_file_check (join_rel dir x)
+    else if prefixb (s_ "#") x then
+      if str_eqb x (s_ "#") || prefixb (s_ "#/") x then NRejected EInvalidSpecifier
+      else
+        match package_scope (length dir) dir with
+        | Some (scope, pk) =>
+            match pk_imports pk with
+            | Some im =>
+                RESOLVE_ESM_MATCH scope (node_imports_resolve x im conds)
+                                  (fun s => PACKAGE_RESOLVE conds s scope)
+            | None => NRejected EImportNotDefined
+            end
+        | None => NRejected EImportNotDefined
+        end
+    else PACKAGE_RESOLVE conds x dir.
 End Spec.
